@@ -20,12 +20,6 @@ def model_cap(q, nworkers):
     return v if v > 0 else None
 
 
-def exit_capacity_ok(cfg):
-    nw, wq, rq, factory, quota = cfg
-    cap = model_cap(wq, nw)
-    return cap is None or cap >= nw or not factory or quota is None
-
-
 class PoolProp(Prop):
     two_phase = True
     case_timeout = 30.0
@@ -86,8 +80,6 @@ class PoolProp(Prop):
             if rng.random() < 0.7:
                 f["call"] = [[rng.randrange(cfg[0] + 2), rng.randrange(3)]]
             case["faults"] = f
-        if self.focus != "C02" and not exit_capacity_ok(cfg):
-            cfg[1] = None
         return case
 
     def generate(self, rng, tier, n):
@@ -203,8 +195,8 @@ class PoolProp(Prop):
             return "step limit"
         d = o["deadlock"] or []
         main = [lab for n, lab in d if n == "main"]
-        if main and list(main[0]) == ["put", "work"] and not exit_capacity_ok(case["cfg"]):
-            return "exit_put_deadlock"
+        if main and list(main[0]) == ["put", "work"] and [1 for e in o["events"] if e[0] == pc.EV["ExitPut"]]:
+            return "exit_put_deadlock"           # the fixed finding F4' (known_findings.json), should it ever return
         return "deadlock: main at %s" % (main[0] if main else "?")
 
     def judge(self, case, m, i):
